@@ -274,6 +274,16 @@ func (m *tsManager) SendTargetMsg(channelName string, msg *api.ReplicateMsg) {
 	ts.targetMsgChan <- msg
 }
 
+// UnsafeSendTargetMsg should call the LockTargetChannel and UnLockTargetChannel before call this function
+func (m *tsManager) UnsafeSendTargetMsg(channelName string, msg *api.ReplicateMsg) {
+	ts, ok := m.channelTS2.Get(channelName)
+	if !ok {
+		log.Panic("send target msg failed", zap.String("channelName", channelName))
+		return
+	}
+	ts.targetMsgChan <- msg
+}
+
 func (m *tsManager) InitTSInfo(replicateID string, channelName string, p time.Duration, c uint64, channeBufferSize int) {
 	channelKey := FormatChanKey(replicateID, channelName)
 	m.channelTSLocks.Lock(channelKey)
